@@ -81,6 +81,26 @@ Fixpoint dedup (l : list N) : list N :=
   | x :: l' => if existsb (N.eqb x) l' then dedup l' else x :: dedup l'
   end.
 
+(** ** the specification of the builder, straight from the measurement list:
+    the table with key [t] has one cell per (row, col) under which some
+    measurement of [t] falls, holding exactly those measurements' values in input
+    order and their residue keys in first-seen order *)
+Definition dedup_first (l : list N) : list N := fold_left (fun s x => set_add x s) l [].
+
+Definition spec_cell (ms : list meas) (t r c : N) : option bcell :=
+  match filter (m_is t r c) ms with
+  | [] => None
+  | l => Some (mkBcell r c (map m_v l) (dedup_first (map m_res l)))
+  end.
+
+Definition opt_to_list {A} (o : option A) : list A := match o with Some x => [x] | None => [] end.
+
+Definition spec_tab (ms : list meas) (t : N) : btab :=
+  let mt := filter (fun m => (m_t m =? t)%N) ms in
+  let rows := dedup (map m_r mt) in
+  let cols := dedup (map m_c mt) in
+  mkBtab t (flat_map (fun r => flat_map (fun cl => opt_to_list (spec_cell ms t r cl)) cols) rows).
+
 (** ** sorting a sample (benchmath.NewSample: sort.Float64s; NaNs first) and the
     canonical total order used to compare samples as multisets *)
 Definition f64_less (x y : b64) : bool := b64_lt x y || (b64_is_nan x && negb (b64_is_nan y)).
@@ -213,4 +233,8 @@ Section ToTables.
   Definition to_tables (ts : list btab) : list otab :=
     let keys := sort_by rank_t (map bt_key ts) in
     somes (map (fun k => option_map table_out (find_tab k ts)) keys).
+
+  (** what benchstat must show for a list of measurements, by specification *)
+  Definition spec_tables (ms : list meas) : list otab :=
+    map (fun t => table_out (spec_tab ms t)) (sort_by rank_t (dedup (map m_t ms))).
 End ToTables.
